@@ -70,6 +70,8 @@ Local == /\ pc = "local"
          /\ IF ~UsesLocal(mode) THEN opens' = <<"ok", "ok">> /\ lineans' = <<"one", "one", "one">>
             ELSE IF Both(mode) /\ Tier # "thorough"
                  THEN opens' \in { <<"ok", "ok">>, <<"error", "ok">> } /\ lineans' \in { <<"one", "one", "one">>, <<"empty", "empty", "empty">>, <<"one", "error", "two">> }
+                 ELSE IF Both(mode)      \* thorough: every pair of Open answers and every pair of remote answers, the line answers that differ in kind
+                 THEN opens' \in OpenChoices /\ lineans' \in { <<"one", "one", "one">>, <<"empty", "empty", "empty">>, <<"one", "error", "two">>, <<"two", "empty", "error">> }
                  ELSE opens' \in OpenChoices /\ lineans' \in LineChoices
          /\ pc' = "remote" /\ UNCHANGED <<prof, mode, remotes>>
 Remote == /\ pc = "remote"
